@@ -253,3 +253,35 @@ func VerifH_C19_roundtrip() {
 	verifAssert(verifLeaked() == 0, "no goroutine left running")
 	verifReach("done")
 }
+
+// VerifH_C19_sched: every interleaving of the lexer and parser goroutines (at channel-operation granularity,
+// with at most `preemptions` preemptive switches per run) on short descriptions with one arbitrary byte: the outcome (lookups or error, error line) is the same as
+// under the deterministic schedule, and nothing deadlocks, panics or leaks under any schedule.
+func VerifH_C19_sched() {
+	short := []string{"GSUB1: A->B\n", "GSUB2: A -> \"AB\"\n", "GPOS1:\nA -> x+1\n"}
+	k := verifChoose("text", len(short))
+	b := []byte(short[k])
+	pos := verifChoose("pos", len(b))
+	b[pos] = verifU8("c")
+	verifAssume(b[pos] < 0x80)
+	text := string(b)
+	lines := 1
+	for i := 0; i < len(text); i++ {
+		if text[i] == '\n' {
+			lines++
+		}
+	}
+	f := verifFont19(true, true)
+	ll0, err0 := verifParseChecked(f, text, lines)
+	verifSchedules(true)
+	verifPreemptions(verifParam("preemptions", 2))
+	ll1, err1 := verifParseChecked(f, text, lines)
+	verifSchedules(false)
+	verifAssert((err0 == nil) == (err1 == nil), "acceptance does not depend on the schedule")
+	if err0 != nil && err1 != nil {
+		verifAssert(err0.(*parseError).next.line == err1.(*parseError).next.line, "error line does not depend on the schedule")
+	} else {
+		verifAssert(verifSame(ll0, ll1), "result does not depend on the schedule")
+	}
+	verifReach("done")
+}
